@@ -79,9 +79,9 @@ impl ElixirRange {
         if self.is_empty() {
             return 0;
         }
-        let diff = (self.last - self.first).abs();
-        let step = self.step.abs();
-        ((diff / step) + 1) as usize
+        let diff = self.last.abs_diff(self.first);
+        let step = self.step.unsigned_abs();
+        (diff / step).saturating_add(1) as usize
     }
 
     /// Returns true if the range contains the given value.
@@ -91,9 +91,13 @@ impl ElixirRange {
             return false;
         }
         if self.step > 0 {
-            value >= self.first && value <= self.last && (value - self.first) % self.step == 0
+            value >= self.first
+                && value <= self.last
+                && value.abs_diff(self.first) % self.step.unsigned_abs() == 0
         } else {
-            value <= self.first && value >= self.last && (self.first - value) % (-self.step) == 0
+            value <= self.first
+                && value >= self.last
+                && self.first.abs_diff(value) % self.step.unsigned_abs() == 0
         }
     }
 
@@ -178,7 +182,10 @@ impl Iterator for RangeIterator {
             if value == self.range.last {
                 self.done = true;
             } else {
-                self.current = self.current.saturating_add(self.range.step);
+                match self.current.checked_add(self.range.step) {
+                    Some(next) => self.current = next,
+                    None => self.done = true,
+                }
             }
         } else {
             if value < self.range.last {
@@ -188,7 +195,10 @@ impl Iterator for RangeIterator {
             if value == self.range.last {
                 self.done = true;
             } else {
-                self.current = self.current.saturating_add(self.range.step);
+                match self.current.checked_add(self.range.step) {
+                    Some(next) => self.current = next,
+                    None => self.done = true,
+                }
             }
         }
 
@@ -203,12 +213,14 @@ impl Iterator for RangeIterator {
             if self.current > self.range.last {
                 0
             } else {
-                (((self.range.last - self.current) / self.range.step) + 1) as usize
+                (self.range.last.abs_diff(self.current) / self.range.step.unsigned_abs())
+                    .saturating_add(1) as usize
             }
         } else if self.current < self.range.last {
             0
         } else {
-            (((self.current - self.range.last) / (-self.range.step)) + 1) as usize
+            (self.current.abs_diff(self.range.last) / self.range.step.unsigned_abs())
+                .saturating_add(1) as usize
         };
         (remaining, Some(remaining))
     }
